@@ -77,27 +77,31 @@ def main(tier, seed, replay=None):
         cases += [seq] + pars
     for i, c in enumerate(cases):
         c["id"] = i
-    results = run_harness(binp, "scenario", cases, workdir, timeout_ms=30000)
-    it = iter(results)
     ncmp = 0
     tcount = {}
-    for seq, pars in groups:
-        rs = next(it)
-        base = strip(rs)
-        for p in pars:
-            rp = next(it)
-            ncmp += 1
-            tcount[p["threads"]] = tcount.get(p["threads"], 0) + 1
-            if rp.get("panic") is not None or rp.get("timeout") or rs.get("panic") is not None or rs.get("timeout"):
-                run.violation("parallel / sequential run panicked or hung", {"sequential": seq, "parallel": p, "rs": rs, "rp": rp})
-                continue
-            got = strip(rp)
-            if got != base:
-                k = next((j for j, (a, b) in enumerate(zip(base, got)) if a != b), min(len(base), len(got)))
-                run.violation("parallel problem (%d threads%s) differs from the sequential one at operation %d (%s)"
-                              % (p["threads"], ", jitter" if p["jitter"] else "", k, base[k][0] if k < len(base) else "?"),
-                              {"sequential": seq, "parallel": p, "operation": k,
-                               "sequential_shows": base[k] if k < len(base) else None, "parallel_shows": got[k] if k < len(got) else None})
+    for profile in ("dev", "release"):
+        # both build profiles: the release build (no debug assertions / overflow checks) must show the same agreement
+        pcases = cases if profile == "dev" else [c for g, (seq, pars) in enumerate(groups) if g % 2 == 0 for c in [seq] + pars]
+        pgroups = groups if profile == "dev" else [g for k, g in enumerate(groups) if k % 2 == 0]
+        results = run_harness(build_harness(profile), "scenario", pcases, workdir, timeout_ms=30000, tag=profile)
+        it = iter(results)
+        for seq, pars in pgroups:
+            rs = next(it)
+            base = strip(rs)
+            for p in pars:
+                rp = next(it)
+                ncmp += 1
+                tcount[p["threads"]] = tcount.get(p["threads"], 0) + 1
+                if rp.get("panic") is not None or rp.get("timeout") or rs.get("panic") is not None or rs.get("timeout"):
+                    run.violation("parallel / sequential run panicked or hung (%s profile)" % profile, {"sequential": seq, "parallel": p, "rs": rs, "rp": rp})
+                    continue
+                got = strip(rp)
+                if got != base:
+                    k = next((j for j, (a, b) in enumerate(zip(base, got)) if a != b), min(len(base), len(got)))
+                    run.violation("parallel problem (%d threads%s, %s profile) differs from the sequential one at operation %d (%s)"
+                                  % (p["threads"], ", jitter" if p["jitter"] else "", profile, k, base[k][0] if k < len(base) else "?"),
+                                  {"sequential": seq, "parallel": p, "operation": k, "profile": profile,
+                                   "sequential_shows": base[k] if k < len(base) else None, "parallel_shows": got[k] if k < len(got) else None})
     run.coverage.update({
         "evaluations": len(cases), "distinct_nontrivial": ncmp,
         "rule": "problems built through new_parallel / mrhs_parallel, run in dedicated rayon pools of %s threads with and without yields "
